@@ -203,8 +203,10 @@ def hs_desc(action, addr, hsdir, auth="UNKNOWN", descid=None, reason=None, extra
 
 
 def hsdir_name(i):
+    """LongName of directory i: distinct fingerprints, but - as on the real network, where many relays keep the
+    default nickname - two out of three share the nickname 'Unnamed'."""
     fp = hashlib.sha1(("hsdir-%d" % i).encode()).hexdigest().upper()
-    return "$%s~dir%d" % (fp, i)
+    return "$%s~%s" % (fp, ("dir%d" % i) if i % 3 == 0 else "Unnamed")
 
 
 def desc_id(version, k):
